@@ -5,7 +5,8 @@ use crate::{
     core::{drive, fnv64, guard, Acc, CaseResult, Chooser, ShardCtx, Tier, Violation},
     decode::{classify, Kind},
     eval::{to_e, E},
-    gen::{self, B},
+    evmref::{self, End, RefCfg},
+    gen::{self, CfOpts, B},
     idiom,
     props::PropDef,
     refword::{keccak_words, W},
@@ -49,6 +50,9 @@ fn health(acc: &Acc, _t: Tier) -> Vec<String> {
             ("class:storage-free", 800),
             ("class:mixed", 800),
             ("class:mutreal", 100),
+            ("class:call-clobber", 300),
+            ("class:dead-storage", 300),
+            ("reference-attribution-checked", 1000),
             ("lookalike:mapping-hash-in-value", 100),
             ("lookalike:array-hash-in-value", 300),
             ("lookalike:prefolded-constant-in-value", 200),
@@ -66,7 +70,7 @@ fn preimages() -> &'static BTreeMap<W, u64> {
 
 /// a look-alike hash on the stack: keccak(x . c), keccak(c) + i, or a pre-folded keccak(c)
 fn lookalike(b: &mut B, ch: &mut Chooser, acc: &mut Acc, in_value: bool) {
-    let c = W::from_u64(*ch.pick(&[0u64, 1, 2, 3, 5, 7, 11, 42, 100, 9_999]));
+    let c = W::from_u64(*ch.pick(&[0u64, 1, 2, 3, 5, 7, 11, 42, 77, 9_999]));
     // the mapping hash in a value is a known finding: keep it rare there so that the search goes on
     let pick = if in_value {
         match ch.below(12) {
@@ -230,6 +234,56 @@ fn g_mixed(ch: &mut Chooser, acc: &mut Acc) -> B {
     b
 }
 
+/// scratch memory holds a look-alike constant, a call's return area then covers it, and only
+/// afterwards is memory hashed into a storage key
+fn g_call_clobber(ch: &mut Chooser, acc: &mut Acc) -> B {
+    let mut b = B::new();
+    let c = W::from_u64(*ch.pick(&[1u64, 3, 7, 11, 42]));
+    // keccak(caller . c), discarded
+    b.emit(asm::CALLER);
+    b.push(W::ZERO);
+    b.emit(asm::MSTORE);
+    b.push(c);
+    b.push(W::from_u64(32));
+    b.emit(asm::MSTORE);
+    b.push(W::from_u64(64));
+    b.push(W::ZERO);
+    b.emit(asm::SHA3);
+    b.emit(asm::POP);
+    acc.label("lookalike:to-memory/log/return/call");
+    // a call whose return area covers the scratch words
+    let ret_size = *ch.pick(&[0x40u64, 0x40, 0x60, 0x80, 0x20]);
+    b.push(W::from_u64(ret_size));
+    b.push(W::ZERO);
+    b.push(W::ZERO);
+    b.push(W::ZERO);
+    if ch.chance(1, 2) {
+        b.push(W::ZERO);
+        b.emit(asm::CALLER);
+        b.push(W::from_u64(5000));
+        b.emit(asm::CALL);
+    } else {
+        b.emit(asm::CALLER);
+        b.push(W::from_u64(5000));
+        b.emit(*ch.pick(&[0xfau8, 0xf4]));
+    }
+    b.emit(asm::POP);
+    // the returned words are used as a mapping location
+    b.push(W::from_u64(64));
+    b.push(W::ZERO);
+    b.emit(asm::SHA3);
+    if ch.chance(1, 2) {
+        b.emit(asm::SLOAD);
+        b.emit(asm::POP);
+    } else {
+        b.emit(asm::CALLVALUE);
+        b.emit(asm::SWAP1);
+        b.emit(asm::SSTORE);
+    }
+    b.emit(asm::STOP);
+    b
+}
+
 /// all sub-expressions of the key sub-trees of storage nodes
 fn collect_keys(values: &[RuntimeBoxedVal], keys: &mut Vec<RuntimeBoxedVal>, seen: &mut HashSet<usize>) {
     for v in values {
@@ -355,15 +409,69 @@ pub fn check_code(code: &[u8], class: &str, lookalike_present: bool, acc: &mut A
             );
         }
     }
+    // ---- the same question answered by the reference EVM (independent of the subject's VM) ----------
+    let gas = run.gas.clone();
+    let gas_of = |i: usize| gas.get(i).copied().unwrap_or(0);
+    let rr = evmref::run(
+        code,
+        &RefCfg {
+            gas_of: &gas_of,
+            gas_limit: cfg.gas_limit as u64,
+            visit_limit: 1,
+            max_paths: 2_000,
+            max_steps: 400_000,
+            selfdestruct_halts: true,
+        },
+    );
+    let in_domain = rr.complete
+        && rr.paths.len() <= cfg.forks
+        && rr.paths.iter().all(|p| !matches!(p.end, End::Budget) && p.gas_error_at.is_none() && !p.prov_imprecise);
+    if in_domain {
+        acc.label("reference-attribution-checked");
+        let mut a_ref: BTreeSet<W> = BTreeSet::new();
+        let mut any_storage = false;
+        for p in &rr.paths {
+            for (k, _, _) in &p.sstores {
+                any_storage = true;
+                a_ref.extend(rr.provenance(k).iter().copied());
+            }
+            for (k, _) in &p.sloads {
+                any_storage = true;
+                a_ref.extend(rr.provenance(k).iter().copied());
+            }
+        }
+        let pre: Vec<W> = a_ref.iter().filter_map(|c| preimages().get(c).map(|i| W::from_u64(*i))).collect();
+        a_ref.extend(pre);
+        if !any_storage {
+            acc.label("reference-executes-no-storage-instruction");
+            return fail(
+                "a non-empty layout although no path of the reference EVM executes a storage instruction".into(),
+                format!("{}", subj::layout_json(&layout)),
+            );
+        }
+        for s in layout.slots() {
+            let idx = subj::from_u256(s.index.0);
+            if !a_ref.contains(&idx) {
+                if mapping_hash_constants(&run).contains(&idx) {
+                    return fail(
+                        "phantom slot: keccak(key . c) occurring in a stored or loaded VALUE is lifted as a mapping access on slot c".into(),
+                        format!("slot {idx} type {:?}; constants flowing into executed storage keys: {:?}", s.typ, a_ref),
+                    );
+                }
+                return fail(
+                    "a reported slot is not attributable to any storage access the reference EVM executes".into(),
+                    format!("slot {idx} type {:?}; constants flowing into executed storage keys: {:?}", s.typ, a_ref),
+                );
+            }
+        }
+    }
     CaseResult::Pass
 }
 
-/// constants c such that sha3(concat(x, c)) occurs somewhere in the collected values
+/// constants c such that sha3(concat(x, c)) occurs inside the VALUE position of a storage write or
+/// load (the shape of the known finding), not in a key and not in values that never reach storage
 fn mapping_hash_constants(run: &subj::VmRun) -> BTreeSet<W> {
-    fn walk(v: &RuntimeBoxedVal, out: &mut BTreeSet<W>, seen: &mut HashSet<usize>) {
-        if !seen.insert(crate::eval::arc_ptr(v)) {
-            return;
-        }
+    fn hashes(v: &RuntimeBoxedVal, out: &mut BTreeSet<W>) {
         if let RSVD::Sha3 { data } = v.data() {
             if let RSVD::Concat { values } = data.data() {
                 if let [_, slot] = &values[..] {
@@ -372,6 +480,25 @@ fn mapping_hash_constants(run: &subj::VmRun) -> BTreeSet<W> {
                     }
                 }
             }
+        }
+        match v.data() {
+            // a nested storage node: only its value position counts again
+            RSVD::SLoad { value, .. } | RSVD::StorageWrite { value, .. } => hashes(value, out),
+            RSVD::UnwrittenStorageValue { .. } => {}
+            _ => {
+                for c in v.children() {
+                    hashes(&c, out);
+                }
+            }
+        }
+    }
+    fn walk(v: &RuntimeBoxedVal, out: &mut BTreeSet<W>, seen: &mut HashSet<usize>) {
+        if !seen.insert(crate::eval::arc_ptr(v)) {
+            return;
+        }
+        match v.data() {
+            RSVD::SLoad { value, .. } | RSVD::StorageWrite { value, .. } => hashes(value, out),
+            _ => {}
         }
         for c in v.children() {
             walk(&c, out, seen);
@@ -411,9 +538,24 @@ fn value_constants(run: &subj::VmRun) -> BTreeSet<W> {
 fn run_shard(ctx: &ShardCtx, acc: &mut Acc) {
     let tier = ctx.tier;
     drive(ctx, "programs", tier.pick(1_200, 20_000), 900, acc, &|ch, acc| {
-        let (class, code) = match ch.below(10) {
+        let (class, code) = match ch.below(14) {
             0..=3 => ("storage-free", g_storage_free(ch, acc).code()),
             4..=8 => ("mixed", g_mixed(ch, acc).code()),
+            9 | 10 => ("call-clobber", g_call_clobber(ch, acc).code()),
+            11 | 12 => (
+                // storage code in blocks that may be dead (behind faulting jumps and halts)
+                "dead-storage",
+                gen::g_cf(
+                    ch,
+                    &CfOpts {
+                        back_edges: false,
+                        faults: false,
+                        max_blocks: 7,
+                    },
+                )
+                .b
+                .code(),
+            ),
             _ => ("mutreal", gen::g_mutreal(ch, tier.pick(300, 1500)).1),
         };
         acc.sample(|| json!({ "class": class, "bytes": hex::encode(&code[..code.len().min(200)]), "len": code.len() }));
